@@ -339,6 +339,10 @@ func (x *session) serveCmds() {
 				return
 			}
 			if !bad {
+				if f, st := s.cfg.Faults[Key{"CONTENT", x.last, 0}]; st && f.Class == "cstall" {
+					x.stall() // stop reading in the middle of the content
+					return
+				}
 				if !x.readData() {
 					return
 				}
